@@ -37,8 +37,8 @@ TRUSTED = ['CPython str(float) / str(bool) literals are supplied to the model by
            'and by every csv case',
            'the ExeTera importer (read_csv, String()/Numeric(strict)) is exercised as a black box for the re-import clause',
            'pandas.DataFrame construction from a dict of numpy arrays']
-ASSUMPTIONS = ['files are written and read as UTF-8 (the locale of the test machine); to_csv opens the file with the locale '
-               'default encoding and default newline translation (identity on POSIX)',
+ASSUMPTIONS = ['files are UTF-8 with LF line ends (after fix-F-C18h to_csv no longer depends on the locale; an ASCII-locale '
+               'interpreter is exercised; newline translation of Windows text mode is not exercised on this machine)',
                'column names are unique within a frame; to_pandas receives list/ndarray masks only']
 
 _np = _session = _parsers = _fi = _pd = _csv = _sess = None
@@ -105,9 +105,30 @@ def _col_texts(kind, values):
     return [_text(kind, v) for v in values]
 
 
+_SUB = ('import sys, json; sys.path.insert(0, %r); from harness.props import C18 as m; from harness.worker import run_one; '
+        'm.setup(); c = json.load(sys.stdin); print("RESULT " + json.dumps(run_one(m, c)))')
+
+
+def _run_in_locale(case):
+    """case['env'] == 'C': run the case in a fresh interpreter whose locale encoding is ASCII
+    (LC_ALL=C, UTF-8 mode and locale coercion off) — to_csv must not depend on it."""
+    import subprocess, sys, json
+    root = os.path.dirname(os.path.dirname(os.path.dirname(os.path.abspath(__file__))))
+    env = dict(os.environ, LC_ALL='C', LANG='C', PYTHONUTF8='0', PYTHONCOERCECLOCALE='0', PYTHONIOENCODING='utf-8')
+    c = {k: v for k, v in case.items() if k != 'env'}
+    r = subprocess.run([sys.executable, '-c', _SUB % root], input=json.dumps(c), env=env, cwd=root,
+                       capture_output=True, text=True, timeout=120)
+    for line in r.stdout.split('\n'):
+        if line.startswith('RESULT '):
+            return json.loads(line[7:])
+    raise RuntimeError('subprocess failed: ' + r.stderr[-300:])
+
+
 def run(case):
     np = _np
     op = case['op']
+    if case.get('env') == 'C':
+        return _run_in_locale(case)
     if op == 'parse':
         text = bytes(case['s']).decode('latin-1')
         return [[_b(c) for c in row] for row in _csv.reader(io.StringIO(text, newline=''))]
@@ -238,7 +259,8 @@ def to_val(case):
         rfv = [[1, _b(rf[1]), _field_flags(case, rf[1]), 1]]
     else:
         rfv = [[1, _b(rf[1]), rf[2], 0]]
-    return [1, VARIANT, fr, rfv, _cf_val(case['cf']), DEFAULT_CHUNK if case['chunk'] is None else case['chunk']]
+    return [1, VARIANT, fr, rfv, _cf_val(case['cf']), DEFAULT_CHUNK if case['chunk'] is None else case['chunk'],
+            1 if case.get('env') == 'C' else 0]
 
 
 _EXC = {1: 'ValueError', 2: 'TypeError', 3: 'IndexError', 4: 'KeyError', 5: 'OverflowError', 9: 'Other'}
@@ -374,6 +396,7 @@ def features(case, model):
         if case['cf'] != sorted(case['cf'], key=list(cols).index if all(c in cols for c in case['cf']) else None):
             f.append('cf:reordered')
     if case.get('reimp'): f.append('reimport')
+    if case.get('env') == 'C': f.append('locale:C-ascii')
     return f
 
 
@@ -470,6 +493,11 @@ def gen(tier, rng):
         yield _csv([[nm, 'str', ['v', '']], ['k', 'int8', [1, 2]]], chunk=1)
         yield _csv([[nm, 'str', ['v', '']]], chunk=2)
         yield _csv([['k', 'int8', [1, 2]], [nm, 'str', ['v', '']]], cf=[nm], chunk=2)
+    # platform independence: the same export under an ASCII locale (fresh interpreter per case)
+    for cols in ([['s', 'str', ['é€', 'n\nl', 'a']]], [['a', 'int8', [1, 2]], ['é', 'str', ['\U0001f600', '']]]):
+        c = _csv(cols, chunk=2, reimp=True)
+        c['env'] = 'C'
+        yield c
     # (D) numeric dtypes
     allnum = []
     for kind, vals in INT_BOUNDS.items():
